@@ -545,6 +545,14 @@ func (r *runner) step(st M) {
 		np := r.peerISS[pp]
 		r.mu.Unlock()
 		r.log(M{"ev": "retarget", "pp": pp, "ok": ok, "peerhi": int(np >> 16), "peerlo": int(np & 0xffff)})
+	case "closel":
+		if r.lep == nil {
+			vh.Fatal("closel without listener")
+		}
+		r.log(M{"ev": "closel"})
+		r.lep.Close()
+		r.lep = nil
+		r.settle(true)
 	case "accept":
 		if r.lep == nil {
 			vh.Fatal("accept without listener")
@@ -654,11 +662,13 @@ func runScenario(si int, sc scenario, out *bufio.Writer) int {
 	for _, ep := range r.conns {
 		eps = append(eps, ep)
 	}
-	if r.lep != nil {
+	if r.sc.Role == "passive" {
 		for pp, sq := range r.lastSyn {
 			r.inject(wire.BuildTCP(r.paddr, r.saddr, wire.TCPFields{SrcPort: uint16(r.peerPort(pp)), DstPort: uint16(r.sport), Seq: sq + 1, Flags: wire.RST}, nil))
 		}
 		r.settle(false)
+	}
+	if r.lep != nil {
 		for i := 0; i < 64; i++ {
 			ep, _, err := r.lep.Accept()
 			if err != nil {
